@@ -128,6 +128,17 @@ def evalOp (fields : List String) : Option OpEval :=
     let a ← parseBDD a; let g ← parseBDD g
     pure { model := BDD.fpIter (fun x => BDD.and x g) fpFuel a, operands := [a, g], vars := [],
            spec := some (fun σ => eval a σ && eval g σ) }
+  | ["fpchain", chain] => do
+    -- `fp(d0, t)` for the transformer given by the chain d0 ↦ d1 ↦ … ↦ dk ↦ dk (every other diagram is
+    -- mapped to itself): not monotone in general; the first element `t` maps to itself is `dk`
+    let ds ← parseBDDList chain
+    let d0 ← ds.head?
+    let last ← ds.getLast?
+    let t : BDD → BDD := fun x => match ds.idxOf? x with
+      | some i => ds.getD (i + 1) last
+      | none => x
+    pure { model := BDD.fpIter t fpFuel d0, operands := ds, vars := [],
+           spec := some (fun σ => eval last σ) }
   | _ => none
 
 def showOpt : Option BDD → String
